@@ -201,9 +201,14 @@ def evaluate(case, drv):
                 num, den = as_map(gb.sum(vals, mask=mask)), as_map(gb.sum(v2, mask=mask))
             else:
                 sub = np.array([i % 2 == 0 for i in range(n)])
-                gm = mask if mask is not None else np.ones(n, dtype=bool)
-                r = as_map(gb.subset_ratio(vals, sub, global_mask=gm))
-                num, den = as_map(gb.sum(vals, mask=sub & gm)), as_map(gb.sum(vals, mask=gm))
+                if mask is None:
+                    # the documented default: no global mask
+                    r = as_map(gb.subset_ratio(vals, sub))
+                    num, den = as_map(gb.sum(vals, mask=sub)), as_map(gb.sum(vals))
+                else:
+                    gm = mask
+                    r = as_map(gb.subset_ratio(vals, sub, global_mask=gm))
+                    num, den = as_map(gb.sum(vals, mask=sub & gm)), as_map(gb.sum(vals, mask=gm))
             for lab in r:
                 if lab not in den:
                     return bad("labels of the denominator", lab)
